@@ -10,6 +10,11 @@ package cryptobyte
 //@ pred okS(s) = s != nil && sep(s, *s)
 //@ pred okOut(out, s) = out != nil && out != s && sep(out, *s)
 //@ pred okP(p, s) = p != nil && sep(p, *s) && sep(p, s)
+// The element at the front of x: is it well formed, its content octets, and what follows it.
+//@ pred elemOK(x) = spec.der_ok(seq(x), len(x))
+//@ pred content(x) = x[spec.der_hdrlen(seq(x)) : spec.der_total(seq(x))]
+//@ pred after(x) = x[spec.der_total(seq(x)):]
+//@ pred clen(x) = spec.der_bodylen(seq(x))
 
 // ---------------------------------------------------------------- string.go
 
@@ -134,9 +139,9 @@ package cryptobyte
 // form, 8.1.3/10.1 definite minimal length, at most 4 length octets, total < 2^32).
 //@ func (*String).readASN1
 //@   requires okS(s) && okOut(out, s) && sep(outTag, *s)
-//@   ensures  result <==> spec.der_ok(seq(old(*s)), len(old(*s)))
-//@   ensures  result ==> same(*s, old(*s)[spec.der_total(seq(old(*s))):])
-//@   ensures  result && skipHeader ==> same(*out, old(*s)[spec.der_hdrlen(seq(old(*s))) : spec.der_total(seq(old(*s)))])
+//@   ensures  result <==> elemOK(old(*s))
+//@   ensures  result ==> same(*s, after(old(*s)))
+//@   ensures  result && skipHeader ==> same(*out, content(old(*s)))
 //@   ensures  result && !skipHeader ==> same(*out, old(*s)[:spec.der_total(seq(old(*s)))])
 //@   ensures  result && outTag != nil ==> uint8(*outTag) == old((*s)[0])
 //@   ensures  !result ==> same(*s, old(*s)) && same(*out, old(*out))
@@ -145,9 +150,9 @@ package cryptobyte
 
 //@ func (*String).ReadAnyASN1
 //@   requires okS(s) && okOut(out, s) && sep(outTag, *s)
-//@   ensures  result <==> spec.der_ok(seq(old(*s)), len(old(*s)))
-//@   ensures  result ==> same(*s, old(*s)[spec.der_total(seq(old(*s))):])
-//@   ensures  result ==> same(*out, old(*s)[spec.der_hdrlen(seq(old(*s))) : spec.der_total(seq(old(*s)))])
+//@   ensures  result <==> elemOK(old(*s))
+//@   ensures  result ==> same(*s, after(old(*s)))
+//@   ensures  result ==> same(*out, content(old(*s)))
 //@   ensures  result && outTag != nil ==> uint8(*outTag) == old((*s)[0])
 //@   ensures  !result ==> same(*s, old(*s)) && same(*out, old(*out))
 //@   modifies *s, *out, *outTag
@@ -155,8 +160,8 @@ package cryptobyte
 
 //@ func (*String).ReadAnyASN1Element
 //@   requires okS(s) && okOut(out, s) && sep(outTag, *s)
-//@   ensures  result <==> spec.der_ok(seq(old(*s)), len(old(*s)))
-//@   ensures  result ==> same(*s, old(*s)[spec.der_total(seq(old(*s))):])
+//@   ensures  result <==> elemOK(old(*s))
+//@   ensures  result ==> same(*s, after(old(*s)))
 //@   ensures  result ==> same(*out, old(*s)[:spec.der_total(seq(old(*s)))])
 //@   ensures  result && outTag != nil ==> uint8(*outTag) == old((*s)[0])
 //@   ensures  !result ==> same(*s, old(*s)) && same(*out, old(*out))
@@ -167,27 +172,27 @@ package cryptobyte
 // first and compares afterwards), so only the success case pins *s and *out.
 //@ func (*String).ReadASN1
 //@   requires okS(s) && okOut(out, s)
-//@   ensures  result <==> (spec.der_ok(seq(old(*s)), len(old(*s))) && old((*s)[0]) == uint8(tag))
-//@   ensures  result ==> same(*s, old(*s)[spec.der_total(seq(old(*s))):])
-//@   ensures  result ==> same(*out, old(*s)[spec.der_hdrlen(seq(old(*s))) : spec.der_total(seq(old(*s)))])
-//@   ensures  !spec.der_ok(seq(old(*s)), len(old(*s))) ==> same(*s, old(*s)) && same(*out, old(*out))
+//@   ensures  result <==> (elemOK(old(*s)) && old((*s)[0]) == uint8(tag))
+//@   ensures  result ==> same(*s, after(old(*s)))
+//@   ensures  result ==> same(*out, content(old(*s)))
+//@   ensures  !elemOK(old(*s)) ==> same(*s, old(*s)) && same(*out, old(*out))
 //@   modifies *s, *out
 //@   terminates
 
 //@ func (*String).ReadASN1Element
 //@   requires okS(s) && okOut(out, s)
-//@   ensures  result <==> (spec.der_ok(seq(old(*s)), len(old(*s))) && old((*s)[0]) == uint8(tag))
-//@   ensures  result ==> same(*s, old(*s)[spec.der_total(seq(old(*s))):])
+//@   ensures  result <==> (elemOK(old(*s)) && old((*s)[0]) == uint8(tag))
+//@   ensures  result ==> same(*s, after(old(*s)))
 //@   ensures  result ==> same(*out, old(*s)[:spec.der_total(seq(old(*s)))])
-//@   ensures  !spec.der_ok(seq(old(*s)), len(old(*s))) ==> same(*s, old(*s)) && same(*out, old(*out))
+//@   ensures  !elemOK(old(*s)) ==> same(*s, old(*s)) && same(*out, old(*out))
 //@   modifies *s, *out
 //@   terminates
 
 //@ func (*String).ReadASN1Bytes
 //@   requires okS(s) && okOut(out, s)
-//@   ensures  result <==> (spec.der_ok(seq(old(*s)), len(old(*s))) && old((*s)[0]) == uint8(tag))
-//@   ensures  result ==> same(*s, old(*s)[spec.der_total(seq(old(*s))):])
-//@   ensures  result ==> same(*out, old(*s)[spec.der_hdrlen(seq(old(*s))) : spec.der_total(seq(old(*s)))])
+//@   ensures  result <==> (elemOK(old(*s)) && old((*s)[0]) == uint8(tag))
+//@   ensures  result ==> same(*s, after(old(*s)))
+//@   ensures  result ==> same(*out, content(old(*s)))
 //@   modifies *s, *out
 //@   terminates
 
@@ -197,8 +202,8 @@ package cryptobyte
 
 //@ func (*String).SkipASN1
 //@   requires okS(s)
-//@   ensures  result <==> (spec.der_ok(seq(old(*s)), len(old(*s))) && old((*s)[0]) == uint8(tag))
-//@   ensures  result ==> same(*s, old(*s)[spec.der_total(seq(old(*s))):])
+//@   ensures  result <==> (elemOK(old(*s)) && old((*s)[0]) == uint8(tag))
+//@   ensures  result ==> same(*s, after(old(*s)))
 //@   modifies *s
 //@   terminates
 
@@ -207,8 +212,8 @@ package cryptobyte
 //@ func (*String).ReadOptionalASN1
 //@   requires okS(s) && okOut(out, s) && sep(outPresent, *s)
 //@   ensures  !(len(old(*s)) > 0 && old((*s)[0]) == uint8(tag)) ==> result && same(*s, old(*s)) && same(*out, old(*out))
-//@   ensures  (len(old(*s)) > 0 && old((*s)[0]) == uint8(tag)) ==> (result <==> spec.der_ok(seq(old(*s)), len(old(*s))))
-//@   ensures  (len(old(*s)) > 0 && old((*s)[0]) == uint8(tag)) && result ==> same(*s, old(*s)[spec.der_total(seq(old(*s))):]) && same(*out, old(*s)[spec.der_hdrlen(seq(old(*s))) : spec.der_total(seq(old(*s)))])
+//@   ensures  (len(old(*s)) > 0 && old((*s)[0]) == uint8(tag)) ==> (result <==> elemOK(old(*s)))
+//@   ensures  (len(old(*s)) > 0 && old((*s)[0]) == uint8(tag)) && result ==> same(*s, after(old(*s))) && same(*out, content(old(*s)))
 //@   ensures  outPresent != nil ==> (*outPresent <==> (len(old(*s)) > 0 && old((*s)[0]) == uint8(tag)))
 //@   modifies *s, *out, *outPresent
 //@   terminates
@@ -216,15 +221,15 @@ package cryptobyte
 //@ func (*String).SkipOptionalASN1
 //@   requires okS(s)
 //@   ensures  !(len(old(*s)) > 0 && old((*s)[0]) == uint8(tag)) ==> result && same(*s, old(*s))
-//@   ensures  (len(old(*s)) > 0 && old((*s)[0]) == uint8(tag)) ==> (result <==> spec.der_ok(seq(old(*s)), len(old(*s))))
-//@   ensures  (len(old(*s)) > 0 && old((*s)[0]) == uint8(tag)) && result ==> same(*s, old(*s)[spec.der_total(seq(old(*s))):])
+//@   ensures  (len(old(*s)) > 0 && old((*s)[0]) == uint8(tag)) ==> (result <==> elemOK(old(*s)))
+//@   ensures  (len(old(*s)) > 0 && old((*s)[0]) == uint8(tag)) && result ==> same(*s, after(old(*s)))
 //@   modifies *s
 //@   terminates
 
 // BOOLEAN (X.690 8.2 + 11.1): one content octet, 0x00 or 0xff.
 //@ func (*String).ReadASN1Boolean
 //@   requires okS(s) && okOut(out, s)
-//@   ensures  result <==> (spec.der_ok(seq(old(*s)), len(old(*s))) && old((*s)[0]) == 1 && spec.der_bodylen(seq(old(*s))) == 1 && (old((*s)[2]) == 0 || old((*s)[2]) == 0xff))
+//@   ensures  result <==> (elemOK(old(*s)) && old((*s)[0]) == 1 && clen(old(*s)) == 1 && (old((*s)[2]) == 0 || old((*s)[2]) == 0xff))
 //@   ensures  result ==> same(*s, old(*s)[3:]) && (*out <==> old((*s)[2]) == 0xff)
 //@   modifies *s, *out
 //@   terminates
@@ -257,34 +262,34 @@ package cryptobyte
 
 //@ func (*String).readASN1Int64
 //@   requires okS(s) && okOut(out, s)
-//@   ensures  result ==> spec.der_ok(seq(old(*s)), len(old(*s))) && old((*s)[0]) == 2 && same(*s, old(*s)[spec.der_total(seq(old(*s))):])
-//@   ensures  result ==> spec.int_minimal(seq(old(*s)[2:]), spec.der_bodylen(seq(old(*s)))) && spec.der_bodylen(seq(old(*s))) <= 8
-//@   ensures  result ==> *out == spec.be_signed(seq(old(*s)[spec.der_hdrlen(seq(old(*s))):]), spec.der_bodylen(seq(old(*s))))
-//@   ensures  (spec.der_ok(seq(old(*s)), len(old(*s))) && old((*s)[0]) == 2 && spec.der_bodylen(seq(old(*s))) <= 8 && spec.int_minimal(seq(old(*s)[spec.der_hdrlen(seq(old(*s))):]), spec.der_bodylen(seq(old(*s))))) ==> result
+//@   ensures  result ==> elemOK(old(*s)) && old((*s)[0]) == 2 && same(*s, after(old(*s)))
+//@   ensures  result ==> spec.int_minimal(seq(content(old(*s))), clen(old(*s))) && clen(old(*s)) <= 8
+//@   ensures  result ==> *out == spec.be_signed(seq(content(old(*s))), clen(old(*s)))
+//@   ensures  (elemOK(old(*s)) && old((*s)[0]) == 2 && clen(old(*s)) <= 8 && spec.int_minimal(seq(content(old(*s))), clen(old(*s)))) ==> result
 //@   modifies *s, *out
 //@   terminates
 
 //@ func (*String).readASN1Uint64
 //@   requires okS(s) && okOut(out, s) && *out == 0
-//@   ensures  result ==> spec.der_ok(seq(old(*s)), len(old(*s))) && old((*s)[0]) == 2 && same(*s, old(*s)[spec.der_total(seq(old(*s))):])
-//@   ensures  result ==> spec.int_minimal(seq(old(*s)[spec.der_hdrlen(seq(old(*s))):]), spec.der_bodylen(seq(old(*s))))
-//@   ensures  result ==> *out == spec.be64(seq(old(*s)[spec.der_hdrlen(seq(old(*s))):]), spec.der_bodylen(seq(old(*s))))
+//@   ensures  result ==> elemOK(old(*s)) && old((*s)[0]) == 2 && same(*s, after(old(*s)))
+//@   ensures  result ==> spec.int_minimal(seq(content(old(*s))), clen(old(*s)))
+//@   ensures  result ==> *out == spec.be64(seq(content(old(*s))), clen(old(*s)))
 //@   modifies *s, *out
 //@   terminates
 
 //@ func (*String).ReadASN1Int64WithTag
 //@   requires okS(s) && okOut(out, s)
-//@   ensures  result ==> spec.der_ok(seq(old(*s)), len(old(*s))) && old((*s)[0]) == uint8(tag) && same(*s, old(*s)[spec.der_total(seq(old(*s))):])
-//@   ensures  result ==> spec.int_minimal(seq(old(*s)[spec.der_hdrlen(seq(old(*s))):]), spec.der_bodylen(seq(old(*s)))) && spec.der_bodylen(seq(old(*s))) <= 8
-//@   ensures  result ==> *out == spec.be_signed(seq(old(*s)[spec.der_hdrlen(seq(old(*s))):]), spec.der_bodylen(seq(old(*s))))
+//@   ensures  result ==> elemOK(old(*s)) && old((*s)[0]) == uint8(tag) && same(*s, after(old(*s)))
+//@   ensures  result ==> spec.int_minimal(seq(content(old(*s))), clen(old(*s))) && clen(old(*s)) <= 8
+//@   ensures  result ==> *out == spec.be_signed(seq(content(old(*s))), clen(old(*s)))
 //@   modifies *s, *out
 //@   terminates
 
 //@ func (*String).ReadASN1Enum
 //@   requires okS(s) && okOut(out, s)
-//@   ensures  result ==> spec.der_ok(seq(old(*s)), len(old(*s))) && old((*s)[0]) == 10 && same(*s, old(*s)[spec.der_total(seq(old(*s))):])
-//@   ensures  result ==> spec.int_minimal(seq(old(*s)[spec.der_hdrlen(seq(old(*s))):]), spec.der_bodylen(seq(old(*s)))) && spec.der_bodylen(seq(old(*s))) <= 8
-//@   ensures  result ==> int64(*out) == spec.be_signed(seq(old(*s)[spec.der_hdrlen(seq(old(*s))):]), spec.der_bodylen(seq(old(*s))))
+//@   ensures  result ==> elemOK(old(*s)) && old((*s)[0]) == 10 && same(*s, after(old(*s)))
+//@   ensures  result ==> spec.int_minimal(seq(content(old(*s))), clen(old(*s))) && clen(old(*s)) <= 8
+//@   ensures  result ==> int64(*out) == spec.be_signed(seq(content(old(*s))), clen(old(*s)))
 //@   modifies *s, *out
 //@   terminates
 
@@ -293,9 +298,11 @@ package cryptobyte
 //@   requires okS(s) && okP(out, s)
 //@   loop 1 invariant 0 <= i && i <= 4 && same(*s, old(*s)[i:]) && i <= len(old(*s))
 //@   loop 1 invariant spec.b128_end(seq(old(*s)), i, 4) == -1 && ret == spec.b128_val(seq(old(*s)), i)
+//@   loop 1 invariant i >= 1 ==> old((*s)[0]) != 0x80
 //@   loop 1 lemma spec.b128_step(seq(old(*s)), i)
+//@   loop 1 lemma spec.b128_end_step(seq(old(*s)), i, len(old(*s)), 4)
 //@   loop 1 decreases len(*s)
-//@   ensures  result <==> spec.b128_end(seq(old(*s)), len(old(*s)), 4) >= 0
+//@   ensures  result <==> (spec.b128_end(seq(old(*s)), len(old(*s)), 4) >= 0 && old((*s)[0]) != 0x80)
 //@   ensures  result ==> *out == spec.b128_val(seq(old(*s)), spec.b128_end(seq(old(*s)), len(old(*s)), 4) + 1)
 //@   ensures  result ==> same(*s, old(*s)[spec.b128_end(seq(old(*s)), len(old(*s)), 4) + 1:])
 //@   ensures  [minimal] result ==> old((*s)[0]) != 0x80
@@ -306,8 +313,8 @@ package cryptobyte
 //@   requires okS(s) && okP(out, s)
 //@   loop 1 invariant 2 <= i && i <= len(components) && i + len(bytes) <= len(components) && wf(bytes) && samebase(bytes, old(*s))
 //@   loop 1 decreases len(bytes)
-//@   ensures  result ==> spec.der_ok(seq(old(*s)), len(old(*s))) && old((*s)[0]) == 6 && same(*s, old(*s)[spec.der_total(seq(old(*s))):])
-//@   ensures  result ==> len(*out) >= 2 && len(*out) <= spec.der_bodylen(seq(old(*s))) + 1
+//@   ensures  result ==> elemOK(old(*s)) && old((*s)[0]) == 6 && same(*s, after(old(*s)))
+//@   ensures  result ==> len(*out) >= 2 && len(*out) <= clen(old(*s)) + 1
 //@   modifies *s, *out
 //@   alloc <= len(*s)
 //@   terminates
@@ -316,19 +323,19 @@ package cryptobyte
 // string is empty, and the unused bits of the last octet are zero.
 //@ func (*String).ReadASN1BitString
 //@   requires okS(s) && okP(out, s)
-//@   ensures  result ==> spec.der_ok(seq(old(*s)), len(old(*s))) && old((*s)[0]) == 3 && same(*s, old(*s)[spec.der_total(seq(old(*s))):])
-//@   ensures  result ==> spec.der_bodylen(seq(old(*s))) >= 1 && old(*s)[spec.der_hdrlen(seq(old(*s)))] <= 7
-//@   ensures  result && spec.der_bodylen(seq(old(*s))) == 1 ==> old(*s)[spec.der_hdrlen(seq(old(*s)))] == 0
-//@   ensures  result && spec.der_bodylen(seq(old(*s))) > 1 ==> old(*s)[spec.der_total(seq(old(*s))) - 1] & (1<<old(*s)[spec.der_hdrlen(seq(old(*s)))] - 1) == 0
+//@   ensures  result ==> elemOK(old(*s)) && old((*s)[0]) == 3 && same(*s, after(old(*s)))
+//@   ensures  result ==> clen(old(*s)) >= 1 && old(*s)[spec.der_hdrlen(seq(old(*s)))] <= 7
+//@   ensures  result && clen(old(*s)) == 1 ==> old(*s)[spec.der_hdrlen(seq(old(*s)))] == 0
+//@   ensures  result && clen(old(*s)) > 1 ==> old(*s)[spec.der_total(seq(old(*s))) - 1] & (1<<old(*s)[spec.der_hdrlen(seq(old(*s)))] - 1) == 0
 //@   ensures  result ==> same(out.Bytes, old(*s)[spec.der_hdrlen(seq(old(*s))) + 1 : spec.der_total(seq(old(*s)))])
-//@   ensures  result ==> out.BitLength == (spec.der_bodylen(seq(old(*s))) - 1) * 8 - int(old(*s)[spec.der_hdrlen(seq(old(*s)))])
+//@   ensures  result ==> out.BitLength == (clen(old(*s)) - 1) * 8 - int(old(*s)[spec.der_hdrlen(seq(old(*s)))])
 //@   modifies *s, *out
 //@   terminates
 
 //@ func (*String).ReadASN1BitStringAsBytes
 //@   requires okS(s) && okOut(out, s)
-//@   ensures  result <==> (spec.der_ok(seq(old(*s)), len(old(*s))) && old((*s)[0]) == 3 && spec.der_bodylen(seq(old(*s))) >= 1 && old(*s)[spec.der_hdrlen(seq(old(*s)))] == 0)
-//@   ensures  result ==> same(*s, old(*s)[spec.der_total(seq(old(*s))):]) && same(*out, old(*s)[spec.der_hdrlen(seq(old(*s))) + 1 : spec.der_total(seq(old(*s)))])
+//@   ensures  result <==> (elemOK(old(*s)) && old((*s)[0]) == 3 && clen(old(*s)) >= 1 && old(*s)[spec.der_hdrlen(seq(old(*s)))] == 0)
+//@   ensures  result ==> same(*s, after(old(*s))) && same(*out, old(*s)[spec.der_hdrlen(seq(old(*s))) + 1 : spec.der_total(seq(old(*s)))])
 //@   modifies *s, *out
 //@   terminates
 
@@ -338,10 +345,10 @@ package cryptobyte
 //@   requires okS(s) && okOut(out, s) && sep(outPresent, *s)
 //@   ensures  !(len(old(*s)) > 0 && old((*s)[0]) == uint8(tag)) ==> result && same(*s, old(*s)) && *out == nil
 //@   ensures  outPresent != nil && result ==> (*outPresent <==> (len(old(*s)) > 0 && old((*s)[0]) == uint8(tag)))
-//@   ensures  (len(old(*s)) > 0 && old((*s)[0]) == uint8(tag)) && result ==> spec.der_ok(seq(old(*s)), len(old(*s))) && same(*s, old(*s)[spec.der_total(seq(old(*s))):])
-//@   ensures  (len(old(*s)) > 0 && old((*s)[0]) == uint8(tag)) && result ==> spec.der_ok(seq(old(*s)[spec.der_hdrlen(seq(old(*s))):]), spec.der_bodylen(seq(old(*s)))) && old(*s)[spec.der_hdrlen(seq(old(*s)))] == 4
-//@   ensures  (len(old(*s)) > 0 && old((*s)[0]) == uint8(tag)) && result ==> spec.der_total(seq(old(*s)[spec.der_hdrlen(seq(old(*s))):])) == spec.der_bodylen(seq(old(*s)))
-//@   ensures  (len(old(*s)) > 0 && old((*s)[0]) == uint8(tag)) && result ==> same(*out, old(*s)[spec.der_hdrlen(seq(old(*s))) + spec.der_hdrlen(seq(old(*s)[spec.der_hdrlen(seq(old(*s))):])) : spec.der_total(seq(old(*s)))])
+//@   ensures  (len(old(*s)) > 0 && old((*s)[0]) == uint8(tag)) && result ==> elemOK(old(*s)) && same(*s, after(old(*s)))
+//@   ensures  (len(old(*s)) > 0 && old((*s)[0]) == uint8(tag)) && result ==> spec.der_ok(seq(content(old(*s))), clen(old(*s))) && old(*s)[spec.der_hdrlen(seq(old(*s)))] == 4
+//@   ensures  (len(old(*s)) > 0 && old((*s)[0]) == uint8(tag)) && result ==> spec.der_total(seq(content(old(*s)))) == clen(old(*s))
+//@   ensures  (len(old(*s)) > 0 && old((*s)[0]) == uint8(tag)) && result ==> same(*out, old(*s)[spec.der_hdrlen(seq(old(*s))) + spec.der_hdrlen(seq(content(old(*s)))) : spec.der_total(seq(old(*s)))])
 //@   modifies *s, *out, *outPresent
 //@   terminates
 
@@ -349,18 +356,18 @@ package cryptobyte
 //@   requires okS(s) && okP(out, s)
 //@   ensures  !(len(old(*s)) > 0 && old((*s)[0]) == 1) ==> result && same(*s, old(*s)) && (*out <==> defaultValue)
 //@   ensures  [one] (len(old(*s)) > 0 && old((*s)[0]) == 1) && result ==> same(*s, old(*s)[3:]) && (*out <==> old((*s)[2]) == 0xff)
-//@   ensures  (len(old(*s)) > 0 && old((*s)[0]) == 1) && result ==> spec.der_ok(seq(old(*s)), len(old(*s))) && spec.der_bodylen(seq(old(*s))) == 1
+//@   ensures  (len(old(*s)) > 0 && old((*s)[0]) == 1) && result ==> elemOK(old(*s)) && clen(old(*s)) == 1
 //@   modifies *s, *out
 //@   terminates
 
 //@ func (*String).ReadASN1GeneralizedTime
 //@   requires okS(s) && okP(out, s)
-//@   ensures  result ==> spec.der_ok(seq(old(*s)), len(old(*s))) && old((*s)[0]) == 24 && same(*s, old(*s)[spec.der_total(seq(old(*s))):])
+//@   ensures  result ==> elemOK(old(*s)) && old((*s)[0]) == 24 && same(*s, after(old(*s)))
 //@   modifies *s, *out
 //@   terminates
 
 //@ func (*String).ReadASN1UTCTime
 //@   requires okS(s) && okP(out, s)
-//@   ensures  result ==> spec.der_ok(seq(old(*s)), len(old(*s))) && old((*s)[0]) == 23 && same(*s, old(*s)[spec.der_total(seq(old(*s))):])
+//@   ensures  result ==> elemOK(old(*s)) && old((*s)[0]) == 23 && same(*s, after(old(*s)))
 //@   modifies *s, *out
 //@   terminates
